@@ -245,6 +245,9 @@ func Convert(value any, typ reflect.Type) (any, error) { //nolint: gocyclo
 		}
 	case reflect.String:
 		switch value := value.(type) {
+		case nil:
+			// nil is the empty string, not "<nil>"
+			return "", nil
 		case []byte:
 			return string(value), nil
 		case fmt.Stringer:
